@@ -121,7 +121,8 @@ fn kind_of(k: usize) -> Kind {
         5 => Kind::TeTwoLinesAndCl(1000),
         6 => Kind::ViaAwait100 { saw_100: true },
         7 => Kind::ViaAwait100 { saw_100: false },
-        _ => Kind::DefaultChunkedExtraHeadWrites,
+        8 => Kind::DefaultChunkedExtraHeadWrites,
+        _ => Kind::TeOtherCaseAndCl(7, false),
     }
 }
 
@@ -173,7 +174,7 @@ fn exec_small(t: &mut Tape, st: &mut Stats) -> Result<(), String> {
 fn exec_loop(t: &mut Tape, st: &mut Stats) -> Result<(), String> {
     const BUFS: [usize; 12] = [6, 7, 8, 16, 21, 22, 23, 261, 4101, 10_253, 10_254, 20_500];
     let api = if t.below(2) == 0 { Api::Flow } else { Api::Call };
-    let kind = kind_of(t.below(9));
+    let kind = kind_of(t.below(10));
     let api = if kind.flow_only() { Api::Flow } else { api };
     let n = match t.weighted(&[3, 1]) {
         0 => *t.pick(&BUFS),
